@@ -80,11 +80,29 @@ class Summaries:
                 continue
             if depth <= 0:
                 continue
+            hit = False
             for g in self.db.callee_fns(t):
                 g = self.db.body_of(g)
                 ok = self.may(g, depth - 1) if mode == "may" else self.must(g, depth - 1)
                 if ok:
                     out.append(bb)
+                    hit = True
+                    break
+            if hit or mode != "may":
+                continue
+            # a closure passed as an argument is assumed to be invoked by the callee
+            for a in t.get("args", []):
+                p = op_place(a)
+                if p is None:
+                    continue
+                for r in f.cfg.origins(p["l"]):
+                    if r[0] == "agg" and r[3]["r"].get("x") in ("closure", "coroutine"):
+                        g = self.db.fns.get(r[3]["r"]["def"])
+                        if g is not None and self.may(g, depth - 1):
+                            out.append(bb)
+                            hit = True
+                            break
+                if hit:
                     break
         return out
 
@@ -482,3 +500,32 @@ def upper_bounded_at(fn, local, bb, tainted):
                 if good is not None and good != (f_t if good == t_t else t_t) and cfg.edge_dominates(sw["bb"], good, bb):
                     return True
     return False
+
+
+def indirect_calls(fn, field):
+    """[(bb, term)] calls through a function pointer loaded from a struct field named `field`
+    (vtable-style dispatch)."""
+    out = []
+    for bb, t in fn.calls():
+        if "fnop" not in t:
+            continue
+        p = op_place(t["fnop"])
+        if p is None:
+            continue
+        names = [e[2] for e in p["p"] if isinstance(e, list) and e[0] == "f"]
+        if field in names:
+            out.append((bb, t))
+            continue
+        for r in fn.cfg.origins(p["l"]):
+            if r[0] == "place" and any(isinstance(e, list) and e[0] == "f" and e[2] == field for e in r[3]["p"]):
+                out.append((bb, t))
+                break
+    return out
+
+
+def const_arg(t, idx):
+    """literal constant value ('true'/'false'/number) of argument idx, or None."""
+    if idx >= len(t.get("args", [])):
+        return None
+    a = t["args"][idx]
+    return a.get("k") if "k" in a else None
